@@ -227,6 +227,9 @@ async def exec_step(cl: Client, st: Dict[str, Any]):
     cl.send_plan = list(st.get("sends", []))
     cl.connect_plan = st.get("connect")
     cl.cur = op
+    jd = st.get("jump_during")
+    if jd:
+        sim.at(jd["after"], lambda: sim.wall_jump(jd["s"]))
     sim.rec("op", cl.idx, op.uid, kind, "invoke")
     sim.mark("u%d" % cl.idx, kind)
     try:
